@@ -39,6 +39,22 @@ pub struct ModuleSpec {
     /// module" is not something the statement settles).
     #[serde(default)]
     pub odd: u8,
+    /// The module declares, itself, the name that the first module it imports unqualified
+    /// declares: an error wherever the `use` line stands.
+    #[serde(default)]
+    pub clash: bool,
+}
+
+/// The module whose declaration module `idx` clashes with, if it does.
+fn clash_target(scn: &Scenario, idx: usize) -> Option<usize> {
+    let m = &scn.modules[idx];
+    if !m.clash {
+        return None;
+    }
+    m.imports.iter().find_map(|imp| match imp.target {
+        Target::Module(t) if !imp.qualified && t != idx => Some(t),
+        _ => None,
+    })
 }
 
 /// The file a URL denotes, as a file system sees it (escapes decoded, repeated separators
@@ -227,7 +243,10 @@ pub fn render_module(scn: &Scenario, idx: usize) -> String {
             }
         }
     }
-    let decl = format!("let v{idx} = {{ {} }};\n", props.join(", "));
+    let mut decl = format!("let v{idx} = {{ {} }};\n", props.join(", "));
+    if let Some(t) = clash_target(scn, idx) {
+        decl.push_str(&format!("let v{t} = num;\n"));
+    }
     // The grammar allows `use` anywhere at top level: in modules with an odd number of
     // imports the declaration comes first, or sits between the `use` lines.
     if m.imports.len() % 2 == 1 {
@@ -415,6 +434,8 @@ pub struct Reference {
     pub reachable: BTreeSet<usize>,
     pub cycle: bool,
     pub missing: BTreeSet<String>,
+    /// a reachable module declares a name that one of its unqualified imports brings too
+    pub clash: bool,
 }
 
 pub fn reference(scn: &Scenario) -> Reference {
@@ -452,10 +473,12 @@ pub fn reference(scn: &Scenario) -> Reference {
         colour[m] = 2;
     }
     dfs(scn, 0, &mut colour, &mut cycle);
+    let clash = reachable.iter().any(|m| clash_target(scn, *m).is_some());
     Reference {
         reachable,
         cycle,
         missing,
+        clash,
     }
 }
 
@@ -577,6 +600,12 @@ pub fn check(scn: &Scenario, out: &Outcome, faults_on: bool) -> Option<Violation
     // Fault-free rules (also apply when the plan's faults never fired).
     let expect_ok = !r.cycle && r.missing.is_empty();
     match &out.verdict {
+        Verdict::OtherError(_) if expect_ok && r.clash => {
+            // the compile error of the module that declares an imported name again
+        }
+        Verdict::Ok(_) if expect_ok && r.clash => {
+            return viol("accepted-bad-graph", "Ok although a module declares a name that an unqualified import brings as well".into());
+        }
         Verdict::Ok(set) => {
             if !expect_ok {
                 return viol(
@@ -657,6 +686,7 @@ pub fn sweep_scenario(mut i: u64) -> Scenario {
             path: format!("m{a}.oal"),
             imports,
             odd: 0,
+            clash: false,
         });
     }
     Scenario {
@@ -684,6 +714,7 @@ pub fn gen_scenario(rng: &mut Rng) -> Scenario {
                 path,
                 imports: vec![],
                 odd: 0,
+                clash: false,
             }
         })
         .collect();
@@ -797,6 +828,10 @@ pub fn gen_scenario(rng: &mut Rng) -> Scenario {
             }
         }
     }
+    if rng.chance(1, 12) {
+        let a = rng.below(n);
+        modules[a].clash = true;
+    }
     Scenario {
         modules,
         faults: vec![],
@@ -816,6 +851,9 @@ pub fn variant(scn: &Scenario, rng: &mut Rng) -> Scenario {
 }
 
 pub fn gen_faults(scn: &Scenario, rng: &mut Rng) -> Vec<Fault> {
+    if scn.modules.iter().any(|m| m.clash) {
+        return Vec::new(); // an erroneous program: what a fault on top of it must yield is not settled
+    }
     let n = scn.modules.len();
     let e: usize = scn.modules.iter().map(|m| m.imports.len()).sum();
     let k = rng.range(1, 2);
@@ -924,6 +962,9 @@ pub fn run(seed: u64, run: u64) -> Report {
     if base.modules.iter().any(|m| m.path.contains('/')) {
         probes.push("subdirectory");
     }
+    if reference(&base).clash {
+        probes.push("declaration_clashes_with_unqualified_import");
+    }
     probes.sort();
     probes.dedup();
 
@@ -978,6 +1019,7 @@ pub fn run(seed: u64, run: u64) -> Report {
                     let ambiguous = r.cycle && !r.missing.is_empty();
                     let same = match (b, &v0) {
                         (Verdict::Invalid(_), Verdict::Invalid(_)) => true,
+                        (Verdict::OtherError(_), Verdict::OtherError(_)) => true,
                         (x, y) => x == y,
                     };
                     if !ambiguous && !same {
